@@ -69,6 +69,9 @@ CHECKS = {
                 text="Sequential semantics: returned value, stored value truncated to the width and untouched neighbours for every type, operation, aligned position and boundary operand (2.3 million grid cases enumerated completely plus millions of fuzzed ones). Concurrency: generated packings of mixed-width operands in one word hammered by 2-8 pinned threads; lost updates, duplicated add_return results, lost tokens, clobbered neighbours are conservation violations. Barriers: forbidden litmus outcome must never appear while the control shows it. Exploration.",
                 ref="DESIGN.md §6 C20",
                 note="Trusted base: the plain-C reference in fuzz/uat_fuzz.cc, libFuzzer, Hypothesis, this machine's x86-64 cores for the concurrent part (atomicity and barriers are observed on the executions that happened, not proven), the harness's own __atomic-builtin start barrier."),
+    "C16": dict(engine="dsched", technique="property-based testing: Hypothesis-generated forking-thread programs, helper layouts, bp reader threads and child step sets, with schedules that place every other thread anywhere when the fork handlers run; the forked child is a real process driven by the same controlled-concurrency engine; oracles: child completes all steps (deadlock/no-progress/10x-budget rules), per-process exactly-once callback counters, hash-table contents, parent completion",
+                text="fork() is executed for real under the engine; the child inherits the scheduler state with only the forking thread alive, so locks or queue states inherited from non-existent threads show up as child deadlocks, lost or duplicated callbacks. Exploration over schedules and configurations.",
+                ref="DESIGN.md §6 C16, §10"),
 }
 NOT_YET = "check not built yet in this session (planned: see DESIGN.md §6)"
 
